@@ -41,7 +41,43 @@ pub fn field_at(kind: &Kind, vals: &[Val], off: usize) -> String {
 
 pub fn check_case(gen: &Gen, i: u64, acc: &mut Acc, site: &str) {
     let (ki, vals, what) = gen.case(i);
-    let kind = &gen.kinds[ki];
+    check_vals(&gen.kinds[ki], &vals, &what, i, acc, site);
+}
+
+/// Every ordering of a list: n elements that differ in every field (numbers j+1 in element j, so that every numeric
+/// field over the list is a permutation of 1..=n), in every one of the n! orders, n = 2, 3, 4.
+pub fn list_order_cases() -> Vec<(usize, Vec<Val>, String)> {
+    fn perms(n: usize) -> Vec<Vec<usize>> {
+        if n == 1 { return vec![vec![0]]; }
+        let mut out = vec![];
+        for p in perms(n - 1) { for pos in 0..n { let mut q = p.clone(); q.insert(pos, n - 1); out.push(q); } }
+        out
+    }
+    let kinds = spec::load();
+    let mut out = vec![];
+    for (ki, k) in kinds.iter().enumerate() {
+        for (lf, f) in k.fields.iter().enumerate() {
+            let (elem, max) = match &f.ty { spec::Ty::List { elem, max, .. } => (elem, *max), _ => continue };
+            for n in 2..=4usize {
+                if n > max { continue; }
+                let elems: Vec<Vec<Val>> = (0..n).map(|j| elem.iter().enumerate().map(|(fi, ef)| match &ef.ty {
+                    spec::Ty::U8 | spec::Ty::U16 | spec::Ty::I16 | spec::Ty::U32 | spec::Ty::I32 | spec::Ty::Ms16 | spec::Ty::Cs16 | spec::Ty::Ms32 | spec::Ty::Cs32 => Val::N(j as i64 + 1),
+                    _ => spec::b1(ef, j * 3 + fi),
+                }).collect()).collect();
+                for p in perms(n) {
+                    let mut vals = crate::gen::baseline(k, 1);
+                    vals[lf] = Val::L(p.iter().map(|j| elems[*j].clone()).collect());
+                    out.push((ki, vals, format!("{} {} in the order {:?}", k.name, f.name, p.iter().map(|j| j + 1).collect::<Vec<_>>())));
+                }
+            }
+        }
+    }
+    out
+}
+
+pub fn check_vals(kind: &Kind, vals: &[Val], what: &str, i: u64, acc: &mut Acc, site: &str) {
+    let vals = vals.to_vec();
+    let what = what.to_string();
     for compressed in [true, false] {
         acc.eval();
         let m = if compressed { "compressed" } else { "uncompressed" };
@@ -84,6 +120,20 @@ pub fn check_case(gen: &Gen, i: u64, acc: &mut Acc, site: &str) {
         };
         let root = serde_json::to_value(&packet).expect("serde rendering");
         let mut ok = true;
+        // the same frame with more traffic already behind it in the receive buffer: the fields it carries are its own
+        {
+            let mut both = BytesMut::from(&frame[..]);
+            both.extend_from_slice(if compressed { &[1u8, 3, 2, 3, 2, 4, 1, 0, 0, 0, 0, 0] } else { &[4u8, 3, 2, 3, 8, 4, 1, 0, 0, 0, 0, 0] });
+            match guard(|| codec.decode(&mut both)) {
+                Ok(Ok(Some(p2))) if both.len() == 12 && format!("{p2:?}") == format!("{packet:?}") => {},
+                other => {
+                    ok = false;
+                    acc.violate(i, format!("C02|{}|decode-depends-on-what-follows", kind.name),
+                        format!("{what} [{m}]: with a TINY and a SMALL behind it in the buffer, specification frame {} decodes to {} leaving {} byte(s); on its own: {}", hex(&frame),
+                            match &other { Ok(Ok(Some(p2))) => format!("{p2:?}").chars().take(120).collect::<String>(), Ok(Ok(None)) => "need more".into(), Ok(Err(e)) => e.to_string().chars().take(80).collect(), Err(p) => p.clone() }, both.len(), format!("{packet:?}").chars().take(120).collect::<String>()), replay.clone());
+                },
+            }
+        }
         if root.get("type").and_then(|t| t.as_str()) != Some(kind.tag.as_str()) {
             ok = false;
             acc.violate(i, format!("C02|{}|Type|decode", kind.name),
@@ -207,7 +257,13 @@ pub fn run(tier: Tier, replay: Option<String>) -> i32 {
         gen.total,
         "every (kind, baseline B0|B1, field, value of the field's specification domain) x {compressed, uncompressed}",
         move |i, acc| check_case(&g2, i, acc, "spec-conformance"),
-    ), super::c01::mso_name_text_site("C02"), super::c01::container_ops_site("C02"), super::c03::after_refusal_spec_site("C02")];
+    ), super::c01::mso_name_text_site("C02"), super::c01::container_ops_site("C02"), super::c03::after_refusal_spec_site("C02"), {
+        let cases = Arc::new(list_order_cases());
+        let kinds = Arc::new(spec::load());
+        Site::new("list-orders", cases.len() as u64,
+            "every counted list kind x n = 2, 3, 4 elements that differ in every field (every numeric field over the list a permutation of 1..=n) x every one of the n! orders: the elements are carried in wire order",
+            move |i, acc| { let (ki, vals, what) = &cases[i as usize]; check_vals(&kinds[*ki], vals, what, i, acc, "list-orders"); })
+    }];
     let total = gen.total;
     super::run_e1(
         "C02",
